@@ -663,6 +663,33 @@ def rule_location(model):
                               f'it at `{norm(n.args[3])}` ({loc_o}): the '
                               'reported line is not the line of that tag',
                               node=n, ctx=fi)
+    # offsets stay absolute: recursive parse calls get the source itself
+    # or a prefix of it (never a slice with a lower bound)
+    holds = source_text_params(model)
+    for fi in parser:
+        names = holds.get(fi.where, set())
+        for n in own_nodes(fi.node):
+            if isinstance(n, ast.Call) and isinstance(n.func, ast.Attribute)\
+                    and n.func.attr in ('parse', 'parse_block',
+                                        'parse_close') and n.args:
+                a = n.args[0]
+                ok = isinstance(a, ast.Name) and a.id in names
+                if isinstance(a, ast.Subscript) and \
+                        isinstance(a.value, ast.Name) and \
+                        a.value.id in names and \
+                        isinstance(a.slice, ast.Slice) and \
+                        (a.slice.lower is None or (
+                            isinstance(a.slice.lower, ast.Constant) and
+                            a.slice.lower.value == 0)):
+                    ok = True
+                r.instance(fi.where, n, 'absolute offsets' if ok
+                           else 'RELATIVE offsets')
+                if not ok:
+                    r.finding(fi.where, n, 'a nested parse is given '
+                              f'`{norm(a)}` instead of the source or a '
+                              'prefix of it: offsets (and therefore the '
+                              'reported line numbers) become relative to '
+                              'the section', node=n, ctx=fi)
     r.require_floor(6)
     return r
 
